@@ -115,7 +115,7 @@ def lift_domain(rng, prog, fl):
         return
     cands = ["dt", "tz", "dst", "utc", "td"]
     if all(p.denominator == 1 for p in pts):
-        cands += ["int", "int", "int"]
+        cands += ["int", "int", "int", "dts", "dts"]       # integer labels; datetimes at second resolution (unit 1 s)
     fl["dom"] = rng.choice(cands)
 
 
@@ -1307,7 +1307,7 @@ def gen_C20(rng, tier):
 
 
 # ----------------------------------------------------------------------------- C17 domains
-DOMS = ["int", "float", "dt", "tz", "dst", "utc", "td"]
+DOMS = ["int", "float", "dt", "tz", "dst", "utc", "td", "dts"]
 
 
 def int_leaf(rng, nan=0.3):
